@@ -895,6 +895,47 @@ def prime_bound_evals(c, r):
     return out
 
 
+def function_cases(chk):
+    """Direct calls of utils/rescaling.py functions not reachable through a registered name:
+    logit with the eps clip, sigmoid and exp used as FORWARD maps.  Returns child configs + model terms."""
+    rng = chk.rng
+    out = []
+    for eps in (1e-6, 0.25):
+        xs = ladder(eps, 1.0 - eps, chk.tier, rng)
+        out.append(({"kind": "function", "fn": "logit_eps", "eps": eps, "x": xs},
+                    f"[B1 [st_logit_eps (P 0)] [{Kd(eps)}]]", (eps, 1.0 - eps), f"logit(x, eps={eps})"))
+    xs = ladder(-40.0, 40.0, chk.tier, rng)
+    out.append(({"kind": "function", "fn": "sigmoid", "x": xs}, "[B1 [st_sigmoid] []]", (-40.0, 40.0), "sigmoid as forward map"))
+    xs = ladder(-700.0, 700.0, chk.tier, rng)
+    out.append(({"kind": "function", "fn": "exp", "x": xs}, "[B1 [st_exp] []]", (-700.0, 700.0), "exp_with_log_jacobian as forward map"))
+    return out
+
+
+def decide_functions(chk, fcases, fres):
+    """direct predicate + Coq items for the function-level cases"""
+    items = []
+    for k, ((cfg, term, (a, b), label), r) in enumerate(zip(fcases, fres)):
+        if r.get("error"):
+            chk.fail("C07:function:raised", f"{label}: raised {r['error']}", {"function": cfg})
+            continue
+        obs = []
+        for j, x in enumerate(cfg["x"]):
+            y, lj, xb, ljb = r["y"][j], r["lj"][j], r["xb"][j], r["ljb"][j]
+            interior = (x - a > KN * box_u(a, b)) and (b - x > KN * box_u(a, b))
+            if interior and cfg["fn"] != "sigmoid":
+                if not (finite(y) and finite(lj)):
+                    chk.fail("C07:function:nonfinite", f"{label}: non-finite output at {x!r}", {"function": cfg, "point_index": j})
+                elif not finite(xb) or abs(xb - x) > KRT * 2.0 ** -52 * max(abs(a), abs(b), 1.0):
+                    chk.fail("C07:function:roundtrip", f"{label}: {x!r} -> back {xb!r}", {"function": cfg, "point_index": j})
+                elif cfg["fn"] != "exp" and (not finite(ljb) or abs(lj + ljb) > 1e-9 * (1 + abs(lj))):
+                    chk.fail("C07:function:logj-sum", f"{label}: log_j {lj!r} + log_j_inv {ljb!r} at {x!r}", {"function": cfg, "point_index": j})
+            obs.append(f"{{| o_in := [[{dy(x)}]]; o_aux := [{dy(1.0)}]; o_xp := [[{flc(y)}]]; o_lj := {flc(lj)}; "
+                       f"o_xb := [[{flc(xb)}]]; o_ljb := {flc(ljb)} |}}")
+        items.append((("fn", k), term, obs, []))
+        chk.count("function:" + cfg["fn"], len(obs))
+    return items
+
+
 def run_child(chk, cfgs, timeout=900, par=8):
     """Run the configurations on the real code, in `par` child processes."""
     from concurrent.futures import ThreadPoolExecutor
@@ -964,6 +1005,19 @@ def run(chk):
     if res is None:
         return
     decide(chk, cfgs, res)
+    # function-level cases (logit with eps, sigmoid / exp as forward maps)
+    fcases = function_cases(chk)
+    rc, out, err = chk.child("c07_child.py", timeout=300, inp=json.dumps([f[0] for f in fcases]))
+    if rc != 0:
+        chk.oblige("implementation child ran (function cases)", "harness", False, err[-1000:])
+        return
+    items = decide_functions(chk, fcases, json.loads(out))
+    results, errors, _ = run_coq_batches(chk, items, par=4)
+    badf = [(fcases[idx[1]][3], j, v) for idx, vs in results.items() for j, v in enumerate(vs) if 0 in v]
+    chk.evaluations += sum(len(v) for v in results.values())
+    chk.oblige(f"correspondence: utils.rescaling logit(eps) / sigmoid / exp called directly, four outputs inside the model's "
+               f"enclosures ({sum(len(it[2]) for it in items)} points)", "correspondence", not errors and not badf,
+               "; ".join(errors[:2]) + " " + "; ".join(f"{l} point#{j}: {v}" for l, j, v in badf[:4]))
 
 
 def tie_a(chk, reg, sigs, rf):
@@ -1171,6 +1225,18 @@ def search_on_break(chk, c, r, i, k):
 
 def replay(data):
     rp = data["replay"]
+    if "function" in rp:
+        r = subprocess.run([common.PY, os.path.join(common.VERIF, "harness", "c07_child.py")], input=json.dumps([rp["function"]]),
+                           capture_output=True, text=True, env=common.child_env())
+        res = json.loads(r.stdout)[0]
+        j = rp.get("point_index", 0)
+        x = rp["function"]["x"][j]
+        bad = ("error" in res) or not finite(res["xb"][j]) or abs(res["xb"][j] - x) > 1e-9 * (1 + abs(x)) \
+            or (rp["function"]["fn"] != "exp" and abs(res["lj"][j] + res["ljb"][j]) > 1e-9 * (1 + abs(res["lj"][j])))
+        print(json.dumps({"function": rp["function"]["fn"], "x": x, "observed": {k: (v[j] if isinstance(v, list) else v) for k, v in res.items()}}, indent=1))
+        if bad:
+            print(f"VIOLATION property={PID} replay=(replayed) {rp['function']['fn']} at {x!r}")
+        return 1 if bad else 0
     c = rp["config"]
     r = subprocess.run([common.PY, os.path.join(common.VERIF, "harness", "c07_child.py")], input=json.dumps([c]),
                        capture_output=True, text=True, env=common.child_env())
